@@ -6,10 +6,10 @@ while IFS=$'\t' read -r id prop stem needs what checks; do
   [ -z "$id" ] && continue
   if [ $# -gt 0 ]; then case " $* " in *" $id "*) ;; *) continue ;; esac; fi
   if [ $# -eq 0 ] && [ -f /verif/seeded/$id/meta.json ]; then continue; fi
-  d=/tmp/mutdemo3-$prop
+  d=/tmp/mutdemo${WAVE_N:-3}-$prop
   demo=$(ls $d/${stem}_demo* 2>/dev/null | head -1)
   [ -f "$d/$stem.diff" ] && [ -n "$demo" ] || { echo "$id: missing diff or demo in $d"; continue; }
-  /verif/tools/mutant.sh "$id" "$prop" "$d/$stem.diff" "$demo" /tmp/mut3-$prop "$needs" $checks 2>&1 | grep -a "^demo clean\|^checks:" | cut -c1-600
+  /verif/tools/mutant.sh "$id" "$prop" "$d/$stem.diff" "$demo" /tmp/mut${WAVE_N:-3}-$prop "$needs" $checks 2>&1 | grep -a "^demo clean\|^checks:" | cut -c1-600
   python3 - "$id" "$what" "$wave" <<'PY'
 import json,sys
 id,what,wave=sys.argv[1:4]
